@@ -173,7 +173,8 @@ def _gen_histories(ctx, binp, pid):
             if pid == "C12" and j % 2 == 0:
                 rc = l2gen.pin_configs(w, rnd)          # pinning switches only (and back)
             hs.append(l2gen.lifecycle_history(w, rnd, nops, disorder=disorder, fuzz=0.6 if pid == "C14" else 0.0, reconf_cfgs=rc,
-                                              reconf_bias=(pid == "C12" and j % 2 == 0)))
+                                              reconf_bias=(pid == "C12" and j % 2 == 0),
+                                              stale_first=(pid in ("C09", "C13", "C05") and j == 0)))
     return hs
 
 
